@@ -9,7 +9,7 @@ import (
 )
 
 func HashMapToJSONString(hm *value.HashMap) (*value.String, error) {
-	data, err := json.Marshal(buildPlainValueFromElement(hm))
+	data, err := marshalElement(hm)
 	if err != nil {
 		return nil, value.ThrowException("生成JSON失败 - " + err.Error())
 	}
@@ -27,12 +27,53 @@ func JSONStringToElement(jsonStr *value.String) (r.Element, error) {
 }
 
 func ElementToJSONString(elem r.Element) (*value.String, error) {
-	plainValue := buildPlainValueFromElement(elem)
-	jsonStr, err := json.Marshal(plainValue)
+	jsonStr, err := marshalElement(elem)
 	if err != nil {
 		return nil, value.ThrowException("生成JSON失败 - " + err.Error())
 	}
 	return value.NewString(string(jsonStr)), nil
+}
+
+// marshalElement - encode an element into JSON text.
+// Different from json.Marshal() on a plain map, the keys of a hashmap keep their insertion
+// order, and an empty array yields [] (instead of null)
+func marshalElement(elem r.Element) ([]byte, error) {
+	switch vv := elem.(type) {
+	case *value.Array:
+		buf := []byte{'['}
+		for idx, vi := range vv.GetValue() {
+			item, err := marshalElement(vi)
+			if err != nil {
+				return nil, err
+			}
+			if idx > 0 {
+				buf = append(buf, ',')
+			}
+			buf = append(buf, item...)
+		}
+		return append(buf, ']'), nil
+	case *value.HashMap:
+		buf := []byte{'{'}
+		for idx, k := range vv.GetKeyOrder() {
+			key, err := json.Marshal(k)
+			if err != nil {
+				return nil, err
+			}
+			item, err := marshalElement(vv.GetValue()[k])
+			if err != nil {
+				return nil, err
+			}
+			if idx > 0 {
+				buf = append(buf, ',')
+			}
+			buf = append(buf, key...)
+			buf = append(buf, ':')
+			buf = append(buf, item...)
+		}
+		return append(buf, '}'), nil
+	default:
+		return json.Marshal(buildPlainValueFromElement(elem))
+	}
 }
 
 func buildPlainValueFromElement(elem r.Element) any {
